@@ -17,6 +17,12 @@ import (
 
 // directiveTable reads token.directives: keyword -> token constant value.
 func (m *Model) directiveTable() (map[string]int64, string) {
+	// the table as the package initialiser builds it (literal, or derived from other tables by a function)
+	if tab, ok := m.globalStringIntMap("token", "directives"); ok && len(tab) > 0 {
+		if w := m.globalMapWritten("token", "directives"); w == "" {
+			return tab, ""
+		}
+	}
 	tp := m.ByPath[fullPkg("token")]
 	if tp == nil {
 		return nil, "package token not found"
